@@ -154,11 +154,11 @@ Ltac ext_mem m :=
   intros m'; cbn; unfold upd_f; destruct (Nat.eqb_spec m' m); subst; cbn; repeat split; auto; try (intros; discriminate).
 
 Lemma rinv_step0 s l s' :
-  Ctl s -> Cfg s -> Win s -> Rinv s -> allowed l -> step0 s l = Some s' -> Rinv (bump s').
+  Ctl s -> Cfg s -> Win s -> Rinv s -> step0 s l = Some s' -> Rinv (bump s').
 Proof.
-  intros C G Wn I A H. pose proof (wmono_step0 _ _ _ C G Wn A H) as Hmono.
+  intros C G Wn I H. pose proof (wmono_step0 _ _ _ C G Wn H) as Hmono.
   pose proof I as [E1 E4 GR E5 E5s URA LOG ORD CNT TB TE SRT].
-  pose proof C as [E2 NONE FL SYN UR PEND]. pose proof Wn as [D1 D1b D2 D3s D3u D3r D4 Du Dr Mx].
+  pose proof C as [E2 NONE FL SYN UR PEND]. pose proof Wn as [D1 D1b D2 D3s D3u D3r D4 Du Dr Mx Su Sr Ls].
   pose proof guard_pos as Hgp. pose proof guard_ge_ms as Hgm. pose proof nspm_pos as Hnp. unfold Cfg in G.
   assert (Hsame : forall s1, recs s1 = recs s -> owner s1 = owner s -> clock s1 = clock s -> W s1 = W s ->
             (forall m, phys (mems s1 m) = phys (mems s m) /\ logical (mems s1 m) = logical (mems s m) /\
@@ -245,7 +245,7 @@ Proof.
     destruct (_ <? logical (mems s m)); inj; apply Hsame; auto; ext_mem m.
   - (* LUpdDecide *)
     destruct (upd (mems s m)); try discriminate. destruct (save_busy (mems s m)); [discriminate|].
-    destruct (need_save (mems s m) next); inj; apply Hsame; auto; ext_mem m.
+    destruct (need_save (refreshed (mems s m) (W s)) next); inj; apply Hsame; auto; ext_mem m.
   - (* LUpdSave *)
     destruct (upd (mems s m)) as [| |next|] eqn:Eu; try discriminate.
     set (t := next + interval s) in *.
@@ -292,7 +292,7 @@ Proof.
     + intros r te Hr' Hg. destruct (TE _ _ Hr' Hg). lia.
   - (* LURDecide *)
     destruct (ur (mems s m)) as [|p l0| |] eqn:Er; try discriminate. destruct (save_busy (mems s m)); [discriminate|].
-    destruct (need_save (mems s m) p); inj; apply Hsame; auto; ext_mem m; rewrite Er; auto.
+    destruct (need_save (refreshed (mems s m) (W s)) p); inj; apply Hsame; auto; ext_mem m; rewrite Er; auto.
   - (* LURSave *)
     destruct (ur (mems s m)) as [| |p l0|] eqn:Er; try discriminate.
     set (t := p + interval s) in *.
@@ -394,4 +394,10 @@ Proof.
     all: try solve [ intros m'; destruct (Nat.eqb_spec m' m); subst; cbn; [lia|apply LOG] ].
     all: try solve [ intros r Hr'; specialize (TB _ Hr'); lia ].
     all: try solve [ intros r te Hr' Hg; destruct (TE _ _ Hr' Hg); lia ].
+  - (* LUpdAbort *)
+    destruct (upd (mems s m)); try discriminate. destruct (save_busy (mems s m)); [discriminate|].
+    destruct (unsure (mems s m)); [|discriminate]. inj. apply Hsame; auto; ext_mem m.
+  - (* LURAbort *)
+    destruct (ur (mems s m)) as [|p l0| |] eqn:Er; try discriminate. destruct (save_busy (mems s m)); [discriminate|].
+    destruct (unsure (mems s m)); [|discriminate]. inj. apply Hsame; auto; ext_mem m; rewrite Er; auto.
 Qed.
